@@ -1,0 +1,135 @@
+//go:build verif
+
+package vrf
+
+// Machine-checked contracts for this package (read by /verif/govc; comment-only, compiled only
+// with -tags verif). See /verif/DESIGN.md.
+//
+// Specification: RFC 9381, ECVRF-EDWARDS25519-SHA512-TAI (suite 0x03), written over the uninterpreted
+// operations of /verif/contracts/deps/edwards25519.spec. cand / candok / tai describe
+// encode_to_curve_try_and_increment, chal the challenge generation, betaof proof_to_hash.
+
+//@ props C18
+
+//@ spec le32(x []byte) mathint = 1*int(x[0]) + 256*int(x[1]) + 65536*int(x[2]) + 16777216*int(x[3]) + 4294967296*int(x[4]) + 1099511627776*int(x[5]) + 281474976710656*int(x[6]) + 72057594037927936*int(x[7]) + 18446744073709551616*int(x[8]) + 4722366482869645213696*int(x[9]) + 1208925819614629174706176*int(x[10]) + 309485009821345068724781056*int(x[11]) + 79228162514264337593543950336*int(x[12]) + 20282409603651670423947251286016*int(x[13]) + 5192296858534827628530496329220096*int(x[14]) + 1329227995784915872903807060280344576*int(x[15]) + 340282366920938463463374607431768211456*int(x[16]) + 87112285931760246646623899502532662132736*int(x[17]) + 22300745198530623141535718272648361505980416*int(x[18]) + 5708990770823839524233143877797980545530986496*int(x[19]) + 1461501637330902918203684832716283019655932542976*int(x[20]) + 374144419156711147060143317175368453031918731001856*int(x[21]) + 95780971304118053647396689196894323976171195136475136*int(x[22]) + 24519928653854221733733552434404946937899825954937634816*int(x[23]) + 6277101735386680763835789423207666416102355444464034512896*int(x[24]) + 1606938044258990275541962092341162602522202993782792835301376*int(x[25]) + 411376139330301510538742295639337626245683966408394965837152256*int(x[26]) + 105312291668557186697918027683670432318895095400549111254310977536*int(x[27]) + 26959946667150639794667015087019630673637144422540572481103610249216*int(x[28]) + 6901746346790563787434755862277025452451108972170386555162524223799296*int(x[29]) + 1766847064778384329583297500742918515827483896875618958121606201292619776*int(x[30]) + 452312848583266388373324160190187140051835877600158453279131187530910662656*int(x[31])
+//@ spec canony(x []byte) bool = le32(x) % 57896044618658097711785492504343953926634992332820282019728792003956564819968 < 57896044618658097711785492504343953926634992332820282019728792003956564819949
+//@ spec nc0(x []byte) bool = x[0] == 1 && forall(i, 1, 31, x[i] == 0) && x[31] == 128
+//@ spec nc1(x []byte) bool = x[0] == 236 && forall(i, 1, 32, x[i] == 255)
+//@ spec canonpt(x []byte) bool = canony(x) && !nc0(x) && !nc1(x) && edwards25519.pdecodes(x)
+
+//@ func isCanonicalY(x []byte) (r bool)
+//@   requires len(x) >= 32
+//@   ensures  r == canony(x)
+//@   panics   never
+
+//@ func newPointFromCanonicalBytes(x []byte) (r *edwards25519.Point, err error)
+//@   requires len(x) == 32
+//@   ensures  isnil(err) == canonpt(x)
+//@   ensures  implies(isnil(err), r != nil && *r == edwards25519.pdecode(x))
+//@   ensures  implies(!isnil(err) && !edwards25519.pdecodes(x) && canony(x) && !nc0(x) && !nc1(x), r == nil || true)
+//@   panics   never
+//@   noframe
+
+//@ func validateKey(Y *edwards25519.Point) (ok bool)
+//@   requires Y != nil
+//@   ensures  ok == (edwards25519.pmul8(*Y) != edwards25519.pid())
+//@   panics   never
+
+//@ spec cand(salt []byte, alpha []byte, ctr int) []byte = hashcat("sha512", byte(3), byte(1), salt, alpha, byte(ctr), byte(0))[0:32]
+//@ spec candok(salt []byte, alpha []byte, ctr int) bool = canonpt(cand(salt, alpha, ctr)) && edwards25519.pmul8(edwards25519.pdecode(cand(salt, alpha, ctr))) != edwards25519.pid()
+//@ rec tai(salt [32]byte, alpha []byte, ctr int) edwards25519.Point = ite(ctr > 255, edwards25519.pid(), ite(candok(salt, alpha, ctr), edwards25519.pmul8(edwards25519.pdecode(cand(salt, alpha, ctr))), tai(salt, alpha, ctr+1)))
+//@ rec taifail(salt [32]byte, alpha []byte, ctr int) bool = ite(ctr > 255, true, !candok(salt, alpha, ctr) && taifail(salt, alpha, ctr+1))
+
+//@ func encodeToCurveTryAndIncrement(encodeToCurveSalt []byte, alphaString []byte) (r *edwards25519.Point)
+//@   requires len(encodeToCurveSalt) == 32
+//@   panics   when taifail(encodeToCurveSalt, alphaString, 0)
+//@   ensures  r != nil && *r == tai(encodeToCurveSalt, alphaString, 0)
+//@   noframe
+//@   loop 1 invariant 0 <= ctr && ctr <= 256 && len(hashString) == 0 || len(hashString) == 64
+//@   loop 1 invariant tai(encodeToCurveSalt, alphaString, 0) == tai(encodeToCurveSalt, alphaString, ctr)
+//@   loop 1 invariant taifail(encodeToCurveSalt, alphaString, 0) == taifail(encodeToCurveSalt, alphaString, ctr)
+
+//@ spec chal(p1 []byte, p2 []byte, p3 edwards25519.Point, p4 edwards25519.Point, p5 edwards25519.Point) []byte = hashcat("sha512", byte(3), byte(2), p1, p2, mkarray(32, i, edwards25519.pencb(p3, i)), mkarray(32, i, edwards25519.pencb(p4, i)), mkarray(32, i, edwards25519.pencb(p5, i)), byte(0))
+//@ spec chalscalar(p1 []byte, p2 []byte, p3 edwards25519.Point, p4 edwards25519.Point, p5 edwards25519.Point) edwards25519.Scalar = edwards25519.sfrom(mkarray(32, i, ite(i < 16, chal(p1, p2, p3, p4, p5)[i], 0)))
+
+//@ func challengeGeneration(P1 []byte, P2 []byte, P3 *edwards25519.Point, P4 *edwards25519.Point, P5 *edwards25519.Point) (c *edwards25519.Scalar)
+//@   theory edscalar
+//@   requires len(P1) == 32 && len(P2) == 32 && P3 != nil && P4 != nil && P5 != nil
+//@   ensures  c != nil && *c == chalscalar(P1, P2, *P3, *P4, *P5)
+//@   panics   never
+//@   noframe
+
+//@ spec betaof(g edwards25519.Point) []byte = hashcat("sha512", byte(3), byte(3), mkarray(32, i, edwards25519.pencb(edwards25519.pmul8(g), i)), byte(0))
+
+//@ func (p *Proof) Hash() (r []byte)
+//@   requires p.gamma != nil
+//@   ensures  len(r) == 64 && forall(i, 0, 64, r[i] == betaof(*p.gamma)[i])
+//@   panics   never
+//@   noframe
+
+//@ func (p *Proof) Bytes() (r []byte)
+//@   requires p.gamma != nil && p.c != nil && p.s != nil
+//@   ensures  len(r) == 80
+//@   ensures  forall(i, 0, 32, r[i] == edwards25519.pencb(*p.gamma, i))
+//@   ensures  forall(i, 0, 16, r[32+i] == edwards25519.sencb(*p.c, i))
+//@   ensures  forall(i, 0, 32, r[48+i] == edwards25519.sencb(*p.s, i))
+//@   panics   never
+//@   noframe
+
+//@ spec proofok(d []byte) bool = len(d) == 80 && canonpt(d[0:32]) && edwards25519.scanon(d[48:80])
+
+//@ func (p *Proof) UnmarshalBinary(data []byte) (err error)
+//@   theory edscalar
+//@   ensures  isnil(err) == proofok(data)
+//@   ensures  implies(isnil(err), p.gamma != nil && p.c != nil && p.s != nil)
+//@   ensures  implies(isnil(err), *p.gamma == edwards25519.pdecode(data[0:32]) && *p.s == edwards25519.sfrom(data[48:80]))
+//@   ensures  implies(isnil(err), *p.c == edwards25519.sfrom(mkarray(32, i, ite(i < 16, data[32+i], 0))))
+//@   modifies *p
+//@   panics   never
+
+//@ func (p *Proof) SetBytes(x []byte) (r *Proof, err error)
+//@   returns r p
+//@   ensures  isnil(err) == proofok(x)
+//@   ensures  implies(isnil(err), r != nil && p.gamma != nil && p.c != nil && p.s != nil)
+//@   ensures  implies(isnil(err), *p.gamma == edwards25519.pdecode(x[0:32]) && *p.s == edwards25519.sfrom(x[48:80]))
+//@   ensures  implies(isnil(err), *p.c == edwards25519.sfrom(mkarray(32, i, ite(i < 16, x[32+i], 0))))
+//@   modifies *p
+//@   panics   never
+
+//@ func ProofToHash(piString []byte) (beta []byte, err error)
+//@   ensures isnil(err) == proofok(piString)
+//@   ensures implies(isnil(err), len(beta) == 64 && forall(i, 0, 64, beta[i] == betaof(edwards25519.pdecode(piString[0:32]))[i]))
+//@   ensures implies(!isnil(err), beta == nil)
+//@   panics  never
+
+//@ spec skx(sk []byte) edwards25519.Scalar = edwards25519.sclamp(hashcat("sha512", sk[0:32])[0:32])
+//@ spec hpoint(pk []byte, alpha []byte) edwards25519.Point = tai(pk, alpha, 0)
+//@ spec henc(pk []byte, alpha []byte) [32]byte = mkarray(32, i, edwards25519.pencb(hpoint(pk, alpha), i))
+//@ spec knonce(sk []byte, alpha []byte) edwards25519.Scalar = edwards25519.sreduce(hashcat("sha512", hashcat("sha512", sk[0:32])[32:64], henc(sk[32:64], alpha)))
+//@ spec gammaof(sk []byte, alpha []byte) edwards25519.Point = edwards25519.smul(skx(sk), hpoint(sk[32:64], alpha))
+//@ spec cof(sk []byte, alpha []byte) edwards25519.Scalar = chalscalar(sk[32:64], henc(sk[32:64], alpha), gammaof(sk, alpha), edwards25519.smul(knonce(sk, alpha), edwards25519.pB()), edwards25519.smul(knonce(sk, alpha), hpoint(sk[32:64], alpha)))
+
+//@ func Prove(privateKey PrivateKey, alpha []byte) (r *Proof)
+//@   panics  when len(privateKey) != 64 || taifail(privateKey[32:64], alpha, 0)
+//@   ensures r != nil && r.gamma != nil && r.c != nil && r.s != nil
+//@   ensures *r.gamma == gammaof(privateKey, alpha)
+//@   ensures *r.c == cof(privateKey, alpha)
+//@   ensures *r.s == edwards25519.smuladd(cof(privateKey, alpha), skx(privateKey), knonce(privateKey, alpha))
+//@   noframe
+
+//@ spec vgamma(pi []byte) edwards25519.Point = edwards25519.pdecode(pi[0:32])
+//@ spec vc(pi []byte) edwards25519.Scalar = edwards25519.sfrom(mkarray(32, i, ite(i < 16, pi[32+i], 0)))
+//@ spec vs(pi []byte) edwards25519.Scalar = edwards25519.sfrom(pi[48:80])
+//@ spec vU(pk []byte, pi []byte) edwards25519.Point = edwards25519.padd(edwards25519.smul(vs(pi), edwards25519.pB()), edwards25519.pneg(edwards25519.smul(vc(pi), edwards25519.pdecode(pk))))
+//@ spec vV(pk []byte, alpha []byte, pi []byte) edwards25519.Point = edwards25519.padd(edwards25519.smul(vs(pi), hpoint(pk, alpha)), edwards25519.pneg(edwards25519.smul(vc(pi), vgamma(pi))))
+//@ spec vaccept(pk []byte, alpha []byte, pi []byte) bool = canonpt(pk) && edwards25519.pmul8(edwards25519.pdecode(pk)) != edwards25519.pid() && proofok(pi) && vc(pi) == chalscalar(pk, henc(pk, alpha), vgamma(pi), vU(pk, pi), vV(pk, alpha, pi))
+
+//@ func Verify(publicKey PublicKey, alpha []byte, piString []byte) (ok bool, beta []byte)
+//@   panics  when len(publicKey) != 32 || (canonpt(publicKey) && edwards25519.pmul8(edwards25519.pdecode(publicKey)) != edwards25519.pid() && proofok(piString) && taifail(publicKey, alpha, 0))
+//@   use g_smul_neg(vc(piString), edwards25519.pdecode(publicKey))
+//@   use g_smul_neg(vc(piString), vgamma(piString))
+//@   use g_comm(edwards25519.smul(vs(piString), edwards25519.pB()), edwards25519.pneg(edwards25519.smul(vc(piString), edwards25519.pdecode(publicKey))))
+//@   ensures ok == vaccept(publicKey, alpha, piString)
+//@   ensures implies(ok, len(beta) == 64 && forall(i, 0, 64, beta[i] == betaof(vgamma(piString))[i]))
+//@   ensures implies(!ok, beta == nil)
+//@   noframe
